@@ -30,6 +30,7 @@ ASSUMPTIONS = [
     "action map holding every maskable host action type x the components of client_1, actions naming missing "
     "components, and (routed) router ACL/port actions",
     "the action map is also listed in descending and shuffled key order (same numbering): mask entry i must describe action i",
+    "one configuration installs an application at run time (software_manager application install request) and adds its execute/scan/close/fix actions to the map",
     "pre-state: client_1 power state over all 4 members (driven there by the real power API), its services and "
     "applications overwritten with every member of the real operating-state enums (incl. RESTARTING/INSTALLING), NIC "
     "flag, file/folder live or deleted via the real file-system API; no reachability restriction (the equality "
@@ -40,13 +41,21 @@ ASSUMPTIONS = [
 FILE_STATES = ["live", "file_deleted", "folder_deleted"]
 
 
-def mask_vs_exec(ai: int, ns: int, svc_state: int, app_state: int, nic_en: bool, fstate: int, kind: str = "switched", couple: bool = False, via_env: bool = False, order: str = "asc"):
+RT_APP = "dos-bot"
+
+
+def _rt_actions(node: str):
+    """Actions addressing an application that is only installed at run time (by the node-application-install action)."""
+    return [(f"node-application-{v}", {"node_name": node, "application_name": RT_APP}) for v in ("execute", "scan", "close", "fix")]
+
+
+def mask_vs_exec(ai: int, ns: int, svc_state: int, app_state: int, nic_en: bool, fstate: int, kind: str = "switched", couple: bool = False, via_env: bool = False, order: str = "asc", rt_install: bool = False):
     from primaite.simulator.system.applications.application import ApplicationOperatingState
     from primaite.simulator.system.services.service import ServiceOperatingState
 
     with concrete():
         quiet()
-        cfg = mini_scenario(kind, with_green=False, with_red=False, action_masking=True, action_order=order)
+        cfg = mini_scenario(kind, with_green=False, with_red=False, action_masking=True, action_order=order, extra_actions=_rt_actions("client_1") if rt_install else ())
         if via_env:
             from primaite.session.environment import PrimaiteGymEnv
 
@@ -78,6 +87,13 @@ def mask_vs_exec(ai: int, ns: int, svc_state: int, app_state: int, nic_en: bool,
     st = pick(NODE_STATES, ns)
     fs = pick(FILE_STATES, fstate)
     with concrete():
+        if rt_install:
+            # the application is installed during the episode through the same request the install action forms
+            r = sim.apply_request(["network", "node", "client_1", "software_manager", "application", "install", RT_APP])
+            if r.status != "success":
+                fail(f"run-time installation of {RT_APP} answered {r.status}")
+            log2 = []
+            _wrap_leaves(sim._request_manager, log)  # wrap the routes that the installation has just added
         if fs == "file_deleted":
             node.file_system.delete_file(folder_name="docs", file_name="a.txt")
         elif fs == "folder_deleted":
@@ -126,7 +142,8 @@ HARNESSES = {
         "fn": mask_vs_exec,
         "quick": [{"fixed": {"kind": "switched", "ns": n, "couple": True}, "timeout": 280} for n in range(4)]
         + [{"fixed": {"kind": "routed", "ns": 0, "couple": True, "fstate": 0, "via_env": True}, "timeout": 280}]
-        + [{"fixed": {"kind": "switched", "ns": 0, "couple": True, "fstate": 0, "order": o, "svc_state": 0}, "timeout": 280} for o in ("desc", "shuffled")],
+        + [{"fixed": {"kind": "switched", "ns": 0, "couple": True, "fstate": 0, "order": o, "svc_state": 0}, "timeout": 280} for o in ("desc", "shuffled")]
+        + [{"fixed": {"kind": "switched", "ns": 0, "fstate": 0, "svc_state": 0, "rt_install": True}, "timeout": 280}],
         "thorough": [{"fixed": {"kind": k, "ns": n, "fstate": f}, "timeout": 1500} for k in ("switched", "routed") for n in range(4) for f in range(3)]
         + [{"fixed": {"kind": "routed", "ns": n, "fstate": 0, "order": o}, "timeout": 1500} for n in (0, 2) for o in ("desc", "shuffled")],
         "cover": ["reached", "turned_away"],
